@@ -474,8 +474,10 @@ func corpus() []Input {
 			{UID: "x", Res: [3]ResIn{{Deserved: 4000, Limit: -1, Weight: 1, Request: 12000}, {Deserved: 1 << 28, Limit: -1, Weight: 1, Request: 1 << 30}, {Deserved: 2, Limit: -1, Weight: 1, Request: 6}}},
 			{UID: "y", Res: [3]ResIn{{Deserved: 4000, Limit: -1, Weight: 3, Request: 12000}, {Deserved: 1 << 28, Limit: 1 << 29, Weight: 1, Request: 1 << 30}, {Deserved: 2, Limit: -1, Weight: 3, Request: 6}}}}},
 		// remainders that tie in exact arithmetic (1/3 each) but not in float64: the unit goes to
-		// q0 or q1 depending on the map iteration order (finding; tolerated as near-cliff)
+		// q0 or q1 depending on the map iteration order (known finding C09-order-dependent-at-ties, flag 1)
 		gpuOnly(8, 0, gq("q0", 0, 0, -1, 1, 1000, 0), gq("q1", 0, 0, -1, 4, 1000, 0), gq("q2", 0, 0, -1, 1, 1000, 0)),
+		gpuOnly(20, 0, gq("q0", 0, 0, -1, 1, 1000, 0), gq("q1", 0, 0, -1, 4, 1000, 0), gq("q2", 0, 0, -1, 1, 1000, 0)),
+		gpuOnly(14, 0, gq("q0", 0, 0, -1, 0.5, 1000, 0), gq("q1", 0, 0, -1, 2, 1000, 0), gq("q2", 0, 0, -1, 0.5, 1000, 0)),
 		// empty queue set, zero total
 		{Totals: [3]float64{1, 1, 1}},
 		gpuOnly(0, 0, gq("a", 0, 0, -1, 1, 5, 0)),
@@ -624,6 +626,7 @@ func Run(dir string, seed uint64, n int, tier string) error {
 	}
 	out.Stats["rule"] = "sibling-queue sets drawn from one splitmix64 stream after a fixed boundary corpus: 5/8 dyadic (integers and binary fractions, band weights summing to a power of two, k in {0,1,3,1/2}) so that float arithmetic is mostly exact, 2/8 decimal (weights 1..10 and 0.3, k in {0.5,0.7,2,10}, usage fractions), 1/8 malformed (negative weights / usage / requests / limits / totals, k<0); a quarter of the cases is followed by a child-level case dividing the fair share one of its queues received; each case is run under 8 map insertion orders. non-trivial = surplus was handed out among >= 2 queues; distinct by input. The classes exact / compared-within-1e-6 / skipped-near-cliff are decided by the model and printed by the shards (line CLASSES)."
 	out.Stats["insertion_orders_per_case"] = shuffles
+	out.Flags = true // flag 1: real results differ between orders at a certified tie / rounding cliff
 	out.Extra = append(out.Extra,
 		"Definition cl := Eval vm_compute in run_classes cases.",
 		"Goal True. let c := eval unfold cl in cl in idtac \"CLASSES\" c. exact I. Qed.")
